@@ -271,6 +271,7 @@ type Stats struct {
 	Findings   []Finding              `json:"findings"`
 	Notes      []string               `json:"notes,omitempty"`
 	Extra      map[string]any         `json:"extra,omitempty"`
+	Counters   map[string]int         `json:"counters,omitempty"`
 }
 
 var (
@@ -313,6 +314,17 @@ func Extra(id, key string, v any) {
 	stMu.Lock()
 	defer stMu.Unlock()
 	statsFor(id).Extra[key] = v
+}
+
+// Counter accumulates a named integer in the property's stats (summed over shards by the driver).
+func Counter(id, key string, delta int) {
+	stMu.Lock()
+	defer stMu.Unlock()
+	s := statsFor(id)
+	if s.Counters == nil {
+		s.Counters = map[string]int{}
+	}
+	s.Counters[key] += delta
 }
 
 // Excluded counts inputs that a main generator left out because of an open finding.
